@@ -298,6 +298,89 @@ fn action() -> impl Strategy<Value = Action> {
     ]
 }
 
+#[derive(Clone, Debug, Serialize, Deserialize)]
+struct ThreadCase {
+    rounds: u16,
+    /// Per round: how many extra references (clones / subscriptions) exist besides the two that
+    /// are dropped simultaneously, and whether the racing pair is (handle, handle) or
+    /// (handle, subscription).
+    shapes: Vec<(u8, bool)>,
+}
+
+/// Real threads: the last two references of a topic are dropped at the same moment from two
+/// threads (spin rendezvous). Whatever the timing, exactly one of the drops is the last one:
+/// one `Unsubscribe` per `Subscribe`, never two in a row.
+fn check_threads(case: &ThreadCase) -> CaseResult {
+    use std::sync::Arc;
+    use std::sync::atomic::{AtomicUsize, Ordering};
+    let rt = tokio::runtime::Builder::new_multi_thread()
+        .worker_threads(2)
+        .enable_all()
+        .build()
+        .map_err(|e| e.to_string())?;
+    rt.block_on(async {
+        let node = SigningKey::from_bytes(&[0x2A; 32]).verifying_key();
+        let (gossip, probe) = probe_gossip_local(node, GossipConfig::default(), 16).await;
+        let rounds = case.rounds.max(1) as usize;
+        let mut topics = Vec::new();
+        for r in 0..rounds {
+            let mut bytes = [0u8; 32];
+            bytes[..8].copy_from_slice(&(r as u64 + 1).to_le_bytes());
+            let topic = Topic::from(bytes);
+            topics.push(topic);
+            let (extra, with_subscription) = case.shapes.get(r % case.shapes.len().max(1)).copied().unwrap_or((0, false));
+            let first = gossip.stream(topic).await.map_err(|e| format!("stream: {e}"))?;
+            // Extra references are dropped (sequentially) before the race.
+            let extras: Vec<GossipHandle> = (0..extra % 3).map(|_| first.clone()).collect();
+            enum Ref {
+                H(GossipHandle),
+                S(GossipSubscription),
+            }
+            let second = if with_subscription { Ref::S(first.subscribe()) } else { Ref::H(first.clone()) };
+            drop(extras);
+            let rendezvous = Arc::new(AtomicUsize::new(0));
+            let spin = |r: &AtomicUsize| {
+                r.fetch_add(1, Ordering::SeqCst);
+                while r.load(Ordering::SeqCst) < 2 {
+                    std::hint::spin_loop();
+                }
+            };
+            let (ra, rb) = (rendezvous.clone(), rendezvous.clone());
+            let ta = std::thread::spawn(move || {
+                spin(&ra);
+                drop(first);
+            });
+            let tb = std::thread::spawn(move || {
+                spin(&rb);
+                drop(second);
+            });
+            ta.join().map_err(|_| "dropper thread panicked".to_string())?;
+            tb.join().map_err(|_| "dropper thread panicked".to_string())?;
+        }
+        // Let the probe manager drain its mailbox (bounded, generous).
+        for _ in 0..200 {
+            tokio::task::yield_now().await;
+            tokio::time::sleep(std::time::Duration::from_millis(1)).await;
+            let done = topics.iter().all(|t| topic_events(&probe, *t).last() == Some(&false));
+            if done {
+                break;
+            }
+        }
+        for (r, topic) in topics.iter().enumerate() {
+            let events = topic_events(&probe, *topic);
+            let subs = events.iter().filter(|e| **e).count();
+            let unsubs = events.len() - subs;
+            ensure!(
+                subs == 1 && unsubs == 1,
+                "round {r}: the last two references were dropped simultaneously from two threads: {subs} Subscribe but {unsubs} Unsubscribe requests; records: {}",
+                render(&events)
+            );
+        }
+        drop(gossip);
+        Ok(CaseOk::nontrivial(rounds >= 50).label_if(case.shapes.iter().any(|s| s.1), "handle_vs_subscription"))
+    })
+}
+
 pub fn run(mut ctx: Ctx) -> ! {
     ctx.assume("interleavings are explored at gate granularity (hook gates inside Gossip::stream + a harness gate between two actions of an actor); between gates an actor runs on one thread without preemption, as tokio tasks do between await points");
     ctx.assume("the manager is the probe actor of the hook: what is checked is the API layer's Subscribe/Unsubscribe protocol towards the manager, not iroh-gossip");
@@ -317,6 +400,20 @@ pub fn run(mut ctx: Ctx) -> ! {
                 .prop_map(|(scripts, schedule)| Case { scripts, schedule })
         },
         check,
+    );
+    ctx.run_prop(
+        Part::new(
+            "threaded_last_drops",
+            "real threads: per case 50-400 rounds, each on a fresh topic: stream(), optional extra clones dropped first, then the last two references (handle+handle or handle+subscription) are dropped at the same moment from two threads after a spin rendezvous; exactly one Unsubscribe per topic; non-trivial = at least 50 rounds (timing decides how many rounds really overlap: sampled, not enumerated)",
+            12,
+            400,
+        )
+        .workers(2, 8)
+        .min_nontrivial(0.5),
+        || {
+            (50u16..400, prop::collection::vec((0u8..3, any::<bool>()), 1..6)).prop_map(|(rounds, shapes)| ThreadCase { rounds, shapes })
+        },
+        check_threads,
     );
     ctx.finish()
 }
